@@ -221,6 +221,14 @@ func vBufStep(pc *PrintCtx, bb *bytes.Buffer, maxArg int) {
 	vAssert(pc.Len() == bb.Len(), "C19: same Len()")
 	vAssert(pc.String() == bb.String(), "C19: same remaining contents (String)")
 	vAssert(string(pc.Bytes()) == string(bb.Bytes()), "C19: same remaining contents (Bytes)")
+	// make the "last read" state observable after every step: probe copies
+	// of both buffers with the two Unread operations
+	pcA, bbA := *pc, *bb
+	ur1, ur2 := pcA.UnreadRune(), bbA.UnreadRune()
+	vAssert((ur1 == nil) == (ur2 == nil) && pcA.Len() == bbA.Len(), "C19: same behaviour of a following UnreadRune")
+	pcB, bbB := *pc, *bb
+	ub1, ub2 := pcB.UnreadByte(), bbB.UnreadByte()
+	vAssert((ub1 == nil) == (ub2 == nil) && pcB.Len() == bbB.Len(), "C19: same behaviour of a following UnreadByte")
 }
 
 func VH_C19() {
@@ -239,6 +247,20 @@ func VH_C19() {
 		pc, bb = NewPrintCtx(b1), bytes.NewBuffer(b2)
 	} else {
 		pc, bb = NewPrintCtxString(pre), bytes.NewBufferString(pre)
+	}
+	// prelude: one canned read operation, so that the arbitrary steps start
+	// from every "last read" state (none / byte read / rune read of each width)
+	if vParam("prelude", 0) == 1 {
+		switch vChoose(3) {
+		case 1:
+			c1, e1 := pc.ReadByte()
+			c2, e2 := bb.ReadByte()
+			vAssert(c1 == c2 && vSameErr(e1, e2), "C19: ReadByte results")
+		case 2:
+			r1, n1, e1 := pc.ReadRune()
+			r2, n2, e2 := bb.ReadRune()
+			vAssert(r1 == r2 && n1 == n2 && vSameErr(e1, e2), "C19: ReadRune results")
+		}
 	}
 	for k := 0; k < steps; k++ {
 		vBufStep(pc, bb, maxArg)
